@@ -30,6 +30,8 @@ type histOp struct {
 	Reuse   string // "" fresh private copies; "end"/"start": the history's long-lived guard-page buffers (slice ends at / starts after the inaccessible page)
 	Bad     string // "" or a documented misuse that has to panic: "short-src" "short-dst" "nil-src" "nil-dst" "ragged" "overlap"
 	Zero    string // ecb-* with N == 0: "nil" "empty" "zero-of-buffer" "dst-nonempty"
+	SrcOff  int    // fresh private copies: distance of src / dst from a 64-byte boundary (0..63)
+	DstOff  int
 }
 
 type histCase struct {
@@ -86,6 +88,12 @@ func checkHist(c histCase, r *h.Rec) error {
 	if reuse > 0 {
 		r.Label("caller-reuses-buffers")
 	}
+	for _, op := range c.Ops {
+		if op.SrcOff%16 != 0 || op.DstOff%16 != 0 {
+			r.Label("misaligned-buffers")
+			break
+		}
+	}
 	r.NTIf(len(c.Ops) >= 2 && (c.Scribble || bad > 0 || reuse > 0))
 
 	model := ref.NewSM4(c.Key)
@@ -104,7 +112,8 @@ func checkHist(c histCase, r *h.Rec) error {
 		copy(b, gen.Fill(gen.Mix(c.Seed, 0x6a5b, uint64(i), salt), len(b)))
 	}
 
-	keyBuf := append([]byte{}, c.Key...)
+	keyBuf := newOffBuf(16, int(c.Seed%64)).B // the key's distance from a 64-byte boundary follows the seed
+	copy(keyBuf, c.Key)
 	b, err := sm4.NewCipher(keyBuf)
 	if err != nil || b == nil {
 		return fmt.Errorf("NewCipher(%s): %v", h.Hex(c.Key), err)
@@ -270,8 +279,11 @@ func checkHist(c histCase, r *h.Rec) error {
 		case "start":
 			src, dst = srcS.B[:n*bs:n*bs], dstS.B[:n*bs:n*bs]
 		case "":
-			// private copies with sentinel-filled spare capacity
-			sb, db := make([]byte, n*bs+24), make([]byte, n*bs+24)
+			// private copies at the requested (mis)alignment with sentinel-filled spare capacity
+			if op.SrcOff < 0 || op.SrcOff > 63 || op.DstOff < 0 || op.DstOff > 63 {
+				return fmt.Errorf("malformed op %+v", op)
+			}
+			sb, db := newOffBuf(n*bs+24, op.SrcOff).B, newOffBuf(n*bs+24, op.DstOff).B
 			fill(sb, spareSent)
 			fill(db, spareSent)
 			src, dst = sb[:n*bs], db[:n*bs]
@@ -396,6 +408,10 @@ func TestC02_History(t *testing.T) {
 			} else {
 				op.InPlace = rapid.IntRange(0, 2).Draw(rt, "inPlace") == 0
 				op.Reuse = rapid.SampledFrom([]string{"", "", "end", "start"}).Draw(rt, "reuse")
+				if op.Reuse == "" && rapid.IntRange(0, 3).Draw(rt, "misaligned") != 0 {
+					op.SrcOff = rapid.IntRange(0, 63).Draw(rt, "srcOff")
+					op.DstOff = rapid.IntRange(0, 63).Draw(rt, "dstOff")
+				}
 			}
 			if op.N == 0 && (op.Kind == "ecb-enc" || op.Kind == "ecb-dec") {
 				op.Zero = rapid.SampledFrom(histZero).Draw(rt, "zero")
@@ -472,7 +488,21 @@ func checkBig(c bigCase, r *h.Rec) error {
 	}
 	// in place, ending at an inaccessible page
 	mode.CryptBlocks(gs.B, gs.B)
-	return cmp("in place", gs.B)
+	if err := cmp("in place", gs.B); err != nil {
+		return err
+	}
+	// heap, src and dst at different distances (1..15 bytes) from a 64-byte boundary
+	so, do := 1+int(c.Seed%15), 1+int((c.Seed>>8)%15)
+	ms, md := newOffBuf(len(in), so), newOffBuf(len(in), do)
+	copy(ms.B, in)
+	mode.CryptBlocks(md.B, ms.B)
+	if err := cmp(fmt.Sprintf("misaligned src@64k+%d dst@64k+%d", so, do), md.B); err != nil {
+		return err
+	}
+	if i, ok := md.intact(); !ok {
+		return fmt.Errorf("key=%s: ECB %s of %d blocks (misaligned) wrote dst[%d]", h.Hex(key), dirName(c.Dec), c.N, i)
+	}
+	return nil
 }
 
 func TestC02_LargeBatches(t *testing.T) {
